@@ -136,4 +136,97 @@ theorem setContains_setDelete (m : List (String × List String)) (k x k2 x2 : St
         rw [alookup_aset_other _ _ _ _ hk]
         simp [hk]
 
+/-! ### the endpoint slice cache -/
+
+/-- entry of one slice in the endpoint slice cache -/
+def cacheEntry (c : SliceCache) (host slice : String) : Option (List IEp) :=
+  (alookup host c).bind (alookup slice)
+
+theorem cacheEntry_update_same (c : SliceCache) (host slice : String) (eps : List IEp) :
+    cacheEntry (cacheUpdate c host slice eps) host slice = some eps := by
+  simp [cacheEntry, cacheUpdate, alookup_aset_same]
+
+theorem cacheEntry_update_other (c : SliceCache) (host slice host2 slice2 : String) (eps : List IEp)
+    (h : host2 ≠ host ∨ slice2 ≠ slice) :
+    cacheEntry (cacheUpdate c host slice eps) host2 slice2 = cacheEntry c host2 slice2 := by
+  unfold cacheEntry cacheUpdate
+  by_cases hh : host2 = host
+  · subst hh
+    have hs : slice2 ≠ slice := by
+      cases h with
+      | inl h => exact absurd rfl h
+      | inr h => exact h
+    rw [alookup_aset_same]
+    simp only [Option.bind]
+    rw [alookup_aset_other _ _ _ _ hs]
+    cases hl : alookup host2 c with
+    | none => simp only [Option.getD]; split <;> simp [aerase, alookup]
+    | some per =>
+      simp only [Option.getD]
+      split
+      · rw [alookup_aerase_other _ _ _ hs]
+      · rfl
+  · rw [alookup_aset_other _ _ _ _ hh]
+
+
+theorem cacheEntry_delete_same (c : SliceCache) (host slice : String) :
+    cacheEntry (cacheDelete c host slice) host slice = none := by
+  unfold cacheEntry cacheDelete
+  cases hl : alookup host c with
+  | none => simp [hl]
+  | some per =>
+    simp only []
+    split
+    · simp [alookup_aerase_same]
+    · simp [alookup_aset_same, alookup_aerase_same]
+
+theorem cacheEntry_delete_other (c : SliceCache) (host slice host2 slice2 : String)
+    (h : host2 ≠ host ∨ slice2 ≠ slice) :
+    cacheEntry (cacheDelete c host slice) host2 slice2 = cacheEntry c host2 slice2 := by
+  unfold cacheEntry cacheDelete
+  cases hl : alookup host c with
+  | none => rfl
+  | some per =>
+    simp only []
+    by_cases hh : host2 = host
+    · subst hh
+      have hs : slice2 ≠ slice := by
+        cases h with
+        | inl h => exact absurd rfl h
+        | inr h => exact h
+      split
+      · rename_i he
+        rw [alookup_aerase_same, hl]
+        simp only [Option.bind]
+        have : alookup slice2 (aerase slice per) = none := by
+          rw [List.isEmpty_iff] at he; rw [he]; rfl
+        rw [alookup_aerase_other _ _ _ hs] at this
+        exact this.symm
+      · rw [alookup_aset_same, hl]
+        simp only [Option.bind]
+        rw [alookup_aerase_other _ _ _ hs]
+    · split
+      · rw [alookup_aerase_other _ _ _ hh]
+      · rw [alookup_aset_other _ _ _ _ hh]
+
+theorem alookup_cacheUpdate_other (c : SliceCache) (host slice host2 : String) (eps : List IEp)
+    (h : host2 ≠ host) : alookup host2 (cacheUpdate c host slice eps) = alookup host2 c := by
+  unfold cacheUpdate
+  rw [alookup_aset_other _ _ _ _ h]
+
+theorem alookup_cacheDelete_other (c : SliceCache) (host slice host2 : String)
+    (h : host2 ≠ host) : alookup host2 (cacheDelete c host slice) = alookup host2 c := by
+  unfold cacheDelete
+  cases hl : alookup host c with
+  | none => rfl
+  | some per =>
+    simp only []
+    split
+    · rw [alookup_aerase_other _ _ _ h]
+    · rw [alookup_aset_other _ _ _ _ h]
+
+theorem cacheGet_congr (c c' : SliceCache) (h : String) (e : alookup h c' = alookup h c) :
+    cacheGet c' h = cacheGet c h := by
+  unfold cacheGet; rw [e]
+
 end IstioModel.C15
